@@ -31,7 +31,8 @@ FILES = ["adcgen/sympy_objects.py", "adcgen/indices.py", "adcgen/expr_container.
 TIMEOUT = 20000
 POOL = [("i", ""), ("j", ""), ("i1", ""), ("j10", ""), ("a", ""), ("b", ""), ("a2", ""),
         ("p", ""), ("q", ""), ("i", "a"), ("i", "b"), ("j", "a"), ("a", "a"), ("a", "b"),
-        ("p", "a"), ("p", "b"), ("k", ""), ("c", ""), ("b10", ""), ("k", "a"), ("b", "b")]
+        ("p", "a"), ("p", "b"), ("k", ""), ("c", ""), ("b10", ""), ("k", "a"), ("b", "b"),
+        ("i0", ""), ("a0", "")]
 
 
 def sym(n, s):
